@@ -483,8 +483,16 @@ fn decode(out: &[u8]) -> Option<Dec> {
 
 fn main() {
     let args = parse_args();
-    let header = "From Coq Require Import List NArith ZArith.\nImport ListNotations.\nFrom Orca Require Import Reindex Additions CheckAdds.\nOpen Scope N_scope.";
     let footer = format!("Eval vm_compute in (report_{} cases).", args.prop);
+    if args.prop == "C12" {
+        let header = "From Coq Require Import List NArith ZArith.\nImport ListNotations.\nFrom Orca Require Import Reindex Builder CheckBuild.\nOpen Scope N_scope.";
+        run_shards(&args, header, "bcase", &footer, |seed, idx| {
+            let mut r = Rng::for_case(seed, idx);
+            gen_case_c12(&mut r, seed, idx)
+        });
+        return;
+    }
+    let header = "From Coq Require Import List NArith ZArith.\nImport ListNotations.\nFrom Orca Require Import Reindex Additions CheckAdds.\nOpen Scope N_scope.";
     let prop = args.prop.clone();
     run_shards(&args, header, "acase", &footer, |seed, idx| {
         let mut r = Rng::for_case(seed, idx);
@@ -690,4 +698,504 @@ fn gen_case(r: &mut Rng, _prop: &str, seed: u64, idx: u64) -> Case {
     }
     let nontrivial = hist.iter().any(|h| !matches!(h, AOp::Delete(..) | AOp::DelExport(..) | AOp::AddImpFunc(..)));
     Case { seed, idx, coq, desc, nontrivial, tags }
+}
+
+// =============================================================================================
+// C12: functions built with FunctionBuilder (signature, add_local, Opcode helpers, set_name, finish_module)
+// interleaved with add_import_func / delete_func / convert_local_fn_to_import.
+use wirm::ir::function::FunctionBuilder;
+use wirm::ir::types::BlockType as WBt;
+use wirm::module_builder::AddLocal;
+use wirm::opcode::{MacroOpcode, Opcode};
+
+const TOK_END: u64 = 1;
+fn name_tok(n: &str) -> u64 { if n == "end" { TOK_END } else { 1000 + fnv(n) % 1_000_000_000 } }
+
+// helper, the Operator variant it is expected to emit, mnemonic, operand types, result type (0 i32 1 i64 2 f32 3 f64)
+macro_rules! plain_ops {
+    ($( ($h:ident, $v:ident, $name:expr, [$($i:expr),*], $o:expr) ),* $(,)?) => {
+        const PLAIN: &[(&str, &[u32], u32)] = &[ $( ($name, &[$($i),*], $o) ),* ];
+        fn plain_apply(k: usize, fb: &mut FunctionBuilder) { let mut n = 0usize; $( if n == k { fb.$h(); return; } n += 1; )* let _ = n; }
+        fn plain_name(op: &Operator) -> Option<&'static str> { match op { $( Operator::$v => Some($name), )* _ => None } }
+    };
+}
+plain_ops![
+    (i32_add, I32Add, "i32.add", [0, 0], 0), (i32_sub, I32Sub, "i32.sub", [0, 0], 0), (i32_mul, I32Mul, "i32.mul", [0, 0], 0),
+    (i32_div_signed, I32DivS, "i32.div_s", [0, 0], 0), (i32_div_unsigned, I32DivU, "i32.div_u", [0, 0], 0),
+    (i32_rem_signed, I32RemS, "i32.rem_s", [0, 0], 0), (i32_rem_unsigned, I32RemU, "i32.rem_u", [0, 0], 0),
+    (i32_and, I32And, "i32.and", [0, 0], 0), (i32_or, I32Or, "i32.or", [0, 0], 0), (i32_xor, I32Xor, "i32.xor", [0, 0], 0),
+    (i32_shl, I32Shl, "i32.shl", [0, 0], 0), (i32_shr_signed, I32ShrS, "i32.shr_s", [0, 0], 0), (i32_shr_unsigned, I32ShrU, "i32.shr_u", [0, 0], 0),
+    (i32_rotl, I32Rotl, "i32.rotl", [0, 0], 0), (i32_rotr, I32Rotr, "i32.rotr", [0, 0], 0),
+    (i32_eq, I32Eq, "i32.eq", [0, 0], 0), (i32_ne, I32Ne, "i32.ne", [0, 0], 0), (i32_eqz, I32Eqz, "i32.eqz", [0], 0),
+    (i32_lt_signed, I32LtS, "i32.lt_s", [0, 0], 0), (i32_lt_unsigned, I32LtU, "i32.lt_u", [0, 0], 0),
+    (i32_gt_signed, I32GtS, "i32.gt_s", [0, 0], 0), (i32_gt_unsigned, I32GtU, "i32.gt_u", [0, 0], 0),
+    (i32_lte_signed, I32LeS, "i32.le_s", [0, 0], 0), (i32_lte_unsigned, I32LeU, "i32.le_u", [0, 0], 0),
+    (i32_gte_signed, I32GeS, "i32.ge_s", [0, 0], 0), (i32_gte_unsigned, I32GeU, "i32.ge_u", [0, 0], 0),
+    (i32_wrap_i64, I32WrapI64, "i32.wrap_i64", [1], 0), (i32_extend_8s, I32Extend8S, "i32.extend8_s", [0], 0), (i32_extend_16s, I32Extend16S, "i32.extend16_s", [0], 0),
+    (i32_trunc_f32s, I32TruncF32S, "i32.trunc_f32_s", [2], 0), (i32_trunc_f64u, I32TruncF64U, "i32.trunc_f64_u", [3], 0), (i32_reinterpret_f32, I32ReinterpretF32, "i32.reinterpret_f32", [2], 0),
+    (i64_add, I64Add, "i64.add", [1, 1], 1), (i64_sub, I64Sub, "i64.sub", [1, 1], 1), (i64_mul, I64Mul, "i64.mul", [1, 1], 1),
+    (i64_and, I64And, "i64.and", [1, 1], 1), (i64_or, I64Or, "i64.or", [1, 1], 1), (i64_xor, I64Xor, "i64.xor", [1, 1], 1),
+    (i64_shl, I64Shl, "i64.shl", [1, 1], 1), (i64_shr_unsigned, I64ShrU, "i64.shr_u", [1, 1], 1), (i64_rotl, I64Rotl, "i64.rotl", [1, 1], 1),
+    (i64_eq, I64Eq, "i64.eq", [1, 1], 0), (i64_ne, I64Ne, "i64.ne", [1, 1], 0), (i64_eqz, I64Eqz, "i64.eqz", [1], 0),
+    (i64_lt_signed, I64LtS, "i64.lt_s", [1, 1], 0), (i64_gte_unsigned, I64GeU, "i64.ge_u", [1, 1], 0),
+    (i64_extend_i32s, I64ExtendI32S, "i64.extend_i32_s", [0], 1), (i64_extend_i32u, I64ExtendI32U, "i64.extend_i32_u", [0], 1),
+    (i64_trunc_f64s, I64TruncF64S, "i64.trunc_f64_s", [3], 1), (i64_reinterpret_f64, I64ReinterpretF64, "i64.reinterpret_f64", [3], 1),
+    (f32_add, F32Add, "f32.add", [2, 2], 2), (f32_sub, F32Sub, "f32.sub", [2, 2], 2), (f32_mul, F32Mul, "f32.mul", [2, 2], 2), (f32_div, F32Div, "f32.div", [2, 2], 2),
+    (f32_min, F32Min, "f32.min", [2, 2], 2), (f32_max, F32Max, "f32.max", [2, 2], 2), (f32_copysign, F32Copysign, "f32.copysign", [2, 2], 2),
+    (f32_abs, F32Abs, "f32.abs", [2], 2), (f32_ceil, F32Ceil, "f32.ceil", [2], 2), (f32_floor, F32Floor, "f32.floor", [2], 2), (f32_sqrt, F32Sqrt, "f32.sqrt", [2], 2),
+    (f32_eq, F32Eq, "f32.eq", [2, 2], 0), (f32_lt, F32Lt, "f32.lt", [2, 2], 0), (f32_ge, F32Ge, "f32.ge", [2, 2], 0),
+    (f32_convert_i32s, F32ConvertI32S, "f32.convert_i32_s", [0], 2), (f32_convert_i64u, F32ConvertI64U, "f32.convert_i64_u", [1], 2),
+    (f32_demote_f64, F32DemoteF64, "f32.demote_f64", [3], 2), (f32_reinterpret_i32, F32ReinterpretI32, "f32.reinterpret_i32", [0], 2),
+    (f64_add, F64Add, "f64.add", [3, 3], 3), (f64_sub, F64Sub, "f64.sub", [3, 3], 3), (f64_mul, F64Mul, "f64.mul", [3, 3], 3), (f64_div, F64Div, "f64.div", [3, 3], 3),
+    (f64_abs, F64Abs, "f64.abs", [3], 3), (f64_sqrt, F64Sqrt, "f64.sqrt", [3], 3), (f64_trunc, F64Trunc, "f64.trunc", [3], 3),
+    (f64_eq, F64Eq, "f64.eq", [3, 3], 0), (f64_le, F64Le, "f64.le", [3, 3], 0),
+    (f64_promote_f32, F64PromoteF32, "f64.promote_f32", [2], 3), (f64_convert_i32u, F64ConvertI32U, "f64.convert_i32_u", [0], 3),
+    (f64_convert_i64s, F64ConvertI64S, "f64.convert_i64_s", [1], 3), (f64_reinterpret_i64, F64ReinterpretI64, "f64.reinterpret_i64", [1], 3),
+];
+
+#[derive(Clone, Debug)]
+enum BI {
+    I32Const(i32), I64Const(i64), F32Const(u32), F64Const(u64), U32Const(u32), U64Const(u64),
+    LocalGet(u32), LocalSet(u32), LocalTee(u32), Block(i32), Loop(i32), If(i32), Else, End, Br(u32), BrIf(u32),
+    Return, Unreachable, Nop, Select, Drop, Plain(usize), RefNull(u32), RefIsNull,
+}
+type Tok = (String, Vec<i128>);
+fn wbt(b: i32) -> WBt { if b < 0 { WBt::Empty } else { WBt::Type(code_dt(b as u32)) } }
+impl BI {
+    fn apply(&self, fb: &mut FunctionBuilder) {
+        match self {
+            BI::I32Const(v) => { fb.i32_const(*v); } BI::I64Const(v) => { fb.i64_const(*v); }
+            BI::F32Const(b) => { fb.f32_const(f32::from_bits(*b)); } BI::F64Const(b) => { fb.f64_const(f64::from_bits(*b)); }
+            BI::U32Const(v) => { fb.u32_const(*v); } BI::U64Const(v) => { fb.u64_const(*v); }
+            BI::LocalGet(x) => { fb.local_get(LocalID(*x)); } BI::LocalSet(x) => { fb.local_set(LocalID(*x)); } BI::LocalTee(x) => { fb.local_tee(LocalID(*x)); }
+            BI::Block(b) => { fb.block(wbt(*b)); } BI::Loop(b) => { fb.loop_stmt(wbt(*b)); } BI::If(b) => { fb.if_stmt(wbt(*b)); }
+            BI::Else => { fb.else_stmt(); } BI::End => { fb.end(); } BI::Br(k) => { fb.br(*k); } BI::BrIf(k) => { fb.br_if(*k); }
+            BI::Return => { fb.return_stmt(); } BI::Unreachable => { fb.unreachable(); } BI::Nop => { fb.nop(); } BI::Select => { fb.select(); } BI::Drop => { fb.drop(); }
+            BI::Plain(k) => plain_apply(*k, fb),
+            BI::RefNull(h) => { fb.ref_null(wirm::ir::module::module_types::HeapType::from(heap_wp(2 * *h))); }
+            BI::RefIsNull => { fb.ref_is_null(); }
+        }
+    }
+    /// what the encoded function is expected to contain for this call: mnemonic and immediates
+    fn tok(&self) -> Tok {
+        let s = |n: &str, v: Vec<i128>| (n.to_string(), v);
+        match self {
+            BI::I32Const(v) => s("i32.const", vec![*v as i128]), BI::I64Const(v) => s("i64.const", vec![*v as i128]),
+            BI::F32Const(b) => s("f32.const", vec![*b as i128]), BI::F64Const(b) => s("f64.const", vec![*b as i128]),
+            BI::U32Const(v) => s("i32.const", vec![*v as i32 as i128]), BI::U64Const(v) => s("i64.const", vec![*v as i64 as i128]),
+            BI::LocalGet(x) => s("local.get", vec![*x as i128]), BI::LocalSet(x) => s("local.set", vec![*x as i128]), BI::LocalTee(x) => s("local.tee", vec![*x as i128]),
+            BI::Block(b) => s("block", vec![*b as i128]), BI::Loop(b) => s("loop", vec![*b as i128]), BI::If(b) => s("if", vec![*b as i128]),
+            BI::Else => s("else", vec![]), BI::End => s("end", vec![]), BI::Br(k) => s("br", vec![*k as i128]), BI::BrIf(k) => s("br_if", vec![*k as i128]),
+            BI::Return => s("return", vec![]), BI::Unreachable => s("unreachable", vec![]), BI::Nop => s("nop", vec![]), BI::Select => s("select", vec![]), BI::Drop => s("drop", vec![]),
+            BI::Plain(k) => s(PLAIN[*k].0, vec![]), BI::RefNull(h) => s("ref.null", vec![2 * *h as i128]), BI::RefIsNull => s("ref.is_null", vec![]),
+        }
+    }
+}
+fn wp_bt(b: &wasmparser::BlockType) -> i128 {
+    match b { wasmparser::BlockType::Empty => -1, wasmparser::BlockType::Type(v) => wp_code(*v) as i128, wasmparser::BlockType::FuncType(i) => 100000 + *i as i128 }
+}
+/// the decoded operator as mnemonic and immediates (independent table)
+fn op_tok(op: &Operator) -> Tok {
+    let s = |n: &str, v: Vec<i128>| (n.to_string(), v);
+    match op {
+        Operator::I32Const { value } => s("i32.const", vec![*value as i128]), Operator::I64Const { value } => s("i64.const", vec![*value as i128]),
+        Operator::F32Const { value } => s("f32.const", vec![value.bits() as i128]), Operator::F64Const { value } => s("f64.const", vec![value.bits() as i128]),
+        Operator::LocalGet { local_index } => s("local.get", vec![*local_index as i128]), Operator::LocalSet { local_index } => s("local.set", vec![*local_index as i128]),
+        Operator::LocalTee { local_index } => s("local.tee", vec![*local_index as i128]),
+        Operator::Block { blockty } => s("block", vec![wp_bt(blockty)]), Operator::Loop { blockty } => s("loop", vec![wp_bt(blockty)]), Operator::If { blockty } => s("if", vec![wp_bt(blockty)]),
+        Operator::Else => s("else", vec![]), Operator::End => s("end", vec![]),
+        Operator::Br { relative_depth } => s("br", vec![*relative_depth as i128]), Operator::BrIf { relative_depth } => s("br_if", vec![*relative_depth as i128]),
+        Operator::Return => s("return", vec![]), Operator::Unreachable => s("unreachable", vec![]), Operator::Nop => s("nop", vec![]), Operator::Select => s("select", vec![]), Operator::Drop => s("drop", vec![]),
+        Operator::RefNull { hty } => s("ref.null", vec![wp_heap(hty) as i128]), Operator::RefIsNull => s("ref.is_null", vec![]),
+        Operator::Call { function_index } => s("call", vec![*function_index as i128]),
+        Operator::V128Const { value } => s("v128.const", vec![value.i128()]),
+        o => match plain_name(o) { Some(n) => s(n, vec![]), None => s(&format!("other:{o:?}"), vec![]) },
+    }
+}
+fn coq_tok(t: &Tok) -> String { format!("({}, {})", name_tok(&t.0), cl(&t.1, |z| cz(*z))) }
+fn coq_toks(v: &[Tok]) -> String { cl(v, coq_tok) }
+fn show_toks(v: &[Tok]) -> String { v.iter().map(|(n, i)| if i.is_empty() { n.clone() } else { format!("{n} {}", i.iter().map(|x| x.to_string()).collect::<Vec<_>>().join(" ")) }).collect::<Vec<_>>().join("; ") }
+
+/// typed generator: pushes instructions that leave one value of type `ty` (0..3; 4.. through a local)
+struct BGen<'r> { r: &'r mut Rng, out: Vec<BI>, space: Vec<u32>, labels: Vec<bool>, budget: i32, results: Vec<u32> }
+impl<'r> BGen<'r> {
+    fn locals_of(&self, ty: u32) -> Vec<u32> { self.space.iter().enumerate().filter(|(_, t)| **t == ty).map(|(i, _)| i as u32).collect() }
+    fn konst(&mut self, ty: u32) {
+        let bi = match ty {
+            0 => if self.r.chance(1, 5) { BI::U32Const(self.r.next() as u32) } else { BI::I32Const(gen_i32(self.r)) },
+            1 => if self.r.chance(1, 5) { BI::U64Const(self.r.next()) } else { BI::I64Const(gen_i64(self.r)) },
+            2 => BI::F32Const(gen_f32(self.r)), _ => BI::F64Const(gen_f64(self.r)),
+        };
+        self.out.push(bi);
+    }
+    fn expr(&mut self, ty: u32, depth: u32) {
+        self.budget -= 1;
+        let ls = self.locals_of(ty);
+        if ty > 3 {
+            if ty == 5 && self.r.chance(1, 2) { self.out.push(BI::RefNull(0)); } else if ty == 6 && self.r.chance(1, 2) { self.out.push(BI::RefNull(1)); }
+            else if !ls.is_empty() { let x = *self.r.pick(&ls); self.out.push(BI::LocalGet(x)); } else { self.out.push(BI::Unreachable); }
+            return;
+        }
+        let choice = if depth >= 3 || self.budget <= 0 { self.r.below(3) } else { self.r.below(12) };
+        match choice {
+            0 | 1 => self.konst(ty),
+            2 => if !ls.is_empty() { let x = *self.r.pick(&ls); self.out.push(BI::LocalGet(x)); } else { self.konst(ty) },
+            3 => if !ls.is_empty() { let x = *self.r.pick(&ls); self.expr(ty, depth + 1); self.out.push(BI::LocalTee(x)); } else { self.konst(ty) },
+            4 => { self.out.push(BI::Block(ty as i32)); self.labels.push(false); self.stmts(depth + 1); self.expr(ty, depth + 1); self.labels.pop(); self.out.push(BI::End); }
+            5 => { self.expr(0, depth + 1); self.out.push(BI::If(ty as i32)); self.labels.push(false); self.expr(ty, depth + 1); self.out.push(BI::Else); self.expr(ty, depth + 1); self.labels.pop(); self.out.push(BI::End); }
+            6 => { self.expr(ty, depth + 1); self.expr(ty, depth + 1); self.expr(0, depth + 1); self.out.push(BI::Select); }
+            7 if ty == 0 && self.r.chance(1, 2) => { let h = self.r.below(2) as u32; self.out.push(BI::RefNull(h)); self.out.push(BI::RefIsNull); }
+            _ => {
+                let rows: Vec<usize> = (0..PLAIN.len()).filter(|k| PLAIN[*k].2 == ty).collect();
+                let k = *self.r.pick(&rows);
+                for t in PLAIN[k].1 { self.expr(*t, depth + 1); }
+                self.out.push(BI::Plain(k));
+            }
+        }
+    }
+    fn stmts(&mut self, depth: u32) {
+        let n = if self.budget <= 0 { 0 } else if depth == 0 { 1 + self.r.below(7) } else { self.r.below(4) };
+        for _ in 0..n {
+            self.budget -= 1;
+            match self.r.below(12) {
+                0 | 1 | 2 => { let ty = self.r.below(4) as u32; self.expr(ty, depth + 1); self.out.push(BI::Drop); }
+                3 | 4 => {
+                    if self.space.is_empty() { self.out.push(BI::Nop); continue; }
+                    let x = self.r.below(self.space.len() as u64) as u32; let ty = self.space[x as usize];
+                    if ty == 7 || ty == 8 { self.out.push(BI::Nop); continue; }
+                    self.expr(ty, depth + 1); self.out.push(BI::LocalSet(x));
+                }
+                5 if depth < 3 => { self.out.push(BI::Block(-1)); self.labels.push(true); self.stmts(depth + 1); self.labels.pop(); self.out.push(BI::End); }
+                6 if depth < 3 => { self.out.push(BI::Loop(-1)); self.labels.push(true); self.stmts(depth + 1); self.labels.pop(); self.out.push(BI::End); }
+                7 if depth < 3 => {
+                    self.expr(0, depth + 1); self.out.push(BI::If(-1)); self.labels.push(true); self.stmts(depth + 1);
+                    if self.r.chance(1, 2) { self.out.push(BI::Else); self.stmts(depth + 1); }
+                    self.labels.pop(); self.out.push(BI::End);
+                }
+                8 => {
+                    // br_if to an enclosing label that takes no value
+                    let ok: Vec<u32> = self.labels.iter().rev().enumerate().filter(|(_, e)| **e).map(|(k, _)| k as u32).collect();
+                    if ok.is_empty() { self.out.push(BI::Nop); } else { let k = *self.r.pick(&ok); self.expr(0, depth + 1); self.out.push(BI::BrIf(k)); }
+                }
+                9 => {
+                    let ok: Vec<u32> = self.labels.iter().rev().enumerate().filter(|(_, e)| **e).map(|(k, _)| k as u32).collect();
+                    if ok.is_empty() || !self.r.chance(1, 2) { self.out.push(BI::Nop); } else { let k = *self.r.pick(&ok); self.out.push(BI::Br(k)); return; }
+                }
+                10 if self.r.chance(1, 4) => { if self.results.is_empty() { self.out.push(BI::Return); } else { self.out.push(BI::Unreachable); } return; }
+                _ => self.out.push(BI::Nop),
+            }
+        }
+    }
+}
+
+#[derive(Clone, Debug)]
+struct BFun { fp: u64, params: Vec<u32>, results: Vec<u32>, locals: Vec<u32>, body: Vec<Tok>, name: Option<u64> }
+#[derive(Clone, Debug)]
+enum BOp { Build(BFun, Vec<BI>), AddImpFunc(u64), Delete(u64), LocalToImport(u64, u64) }
+impl BOp {
+    fn coq(&self) -> String {
+        match self {
+            BOp::Build(f, _) => format!("BBuild {} {} {} {} {} {}", f.fp, cl(&f.params, |x| x.to_string()), cl(&f.results, |x| x.to_string()), cl(&f.locals, |x| x.to_string()), coq_toks(&f.body), copt(&f.name, |x| x.to_string())),
+            BOp::AddImpFunc(fp) => format!("BAddImpFunc {fp}"), BOp::Delete(id) => format!("BDelete {id}"), BOp::LocalToImport(id, fp) => format!("BLocalToImport {id} {fp}"),
+        }
+    }
+    fn show(&self) -> String {
+        match self {
+            BOp::Build(f, _) => format!("Build(fp={} params={:?} results={:?} locals={:?} name={:?} body=[{}])", f.fp, f.params, f.results, f.locals, f.name, show_toks(&f.body)),
+            o => format!("{:?}", o),
+        }
+    }
+}
+#[derive(Clone, Debug)]
+struct FObs { fp: u64, params: Vec<u64>, results: Vec<u64>, groups: Vec<(u64, u64)>, body: Vec<Tok>, name: Option<u64> }
+
+fn gen_sig_ty(r: &mut Rng) -> u32 { match r.below(16) { 0..=3 => 0, 4 | 5 => 1, 6 | 7 => 2, 8 | 9 => 3, 10 | 11 => 4, 12 | 13 => 5, 14 => 6, _ => if r.chance(1, 4) { 7 + r.below(2) as u32 } else { 0 } } }
+
+fn gen_case_c12(r: &mut Rng, seed: u64, idx: u64) -> Case {
+    use wasm_encoder as we;
+    let mut fpc = 0u64;
+    let mut nfp = |fpc: &mut u64| { *fpc += 1; *fpc };
+    let mut namec = 0u64;
+    // ---- base module: 1-3 distinct function types, imports, local functions of type 0 with declared locals and names ----
+    let mut types: Vec<(Vec<u32>, Vec<u32>)> = vec![(vec![], vec![])];
+    for _ in 0..r.below(3) {
+        let p: Vec<u32> = (0..r.below(3)).map(|_| gen_sig_ty(r)).collect();
+        let q: Vec<u32> = (0..r.below(2)).map(|_| gen_sig_ty(r)).collect();
+        if !types.contains(&(p.clone(), q.clone())) { types.push((p, q)); }
+    }
+    let mut imports: Vec<(u64, u64)> = vec![];
+    for _ in 0..r.below(4) { let k = match r.below(8) { 0..=4 => 0, 5 => 1, 6 => 2, _ => 3 }; let fp = nfp(&mut fpc); imports.push((k, fp)); }
+    let mut bfuncs: Vec<FObs> = vec![];
+    let nloc = r.below(3);
+    for i in 0..=nloc {
+        let fp = if i == nloc { PROBE_FP } else { nfp(&mut fpc) };
+        let groups: Vec<(u64, u64)> = (0..r.below(3)).map(|_| (r.below(3), *r.pick(&[0u64, 1, 2, 3, 4, 5])) ).collect();
+        let name = if r.chance(1, 2) { namec += 1; Some(namec) } else { None };
+        bfuncs.push(FObs { fp, params: vec![], results: vec![], groups, body: vec![("i32.const".into(), vec![fp as i128]), ("drop".into(), vec![]), ("end".into(), vec![])], name });
+    }
+    let nimpf = imports.iter().filter(|x| x.0 == 0).count() as u64;
+    let mut m = we::Module::new();
+    let mut ts = we::TypeSection::new();
+    for (p, q) in &types { ts.ty().function(p.iter().map(|t| code_enc(*t)), q.iter().map(|t| code_enc(*t))); }
+    m.section(&ts);
+    if !imports.is_empty() {
+        let mut is = we::ImportSection::new();
+        for (k, fp) in &imports {
+            let name = format!("i{fp}");
+            match k {
+                0 => { is.import("env", &name, we::EntityType::Function(0)); }
+                1 => { is.import("env", &name, we::EntityType::Global(we::GlobalType { val_type: we::ValType::I32, mutable: false, shared: false })); }
+                2 => { is.import("env", &name, we::EntityType::Memory(we::MemoryType { minimum: 1, maximum: None, memory64: false, shared: false, page_size_log2: None })); }
+                _ => { is.import("env", &name, we::EntityType::Table(we::TableType { element_type: we::RefType::FUNCREF, table64: false, minimum: 0, maximum: None, shared: false })); }
+            }
+        }
+        m.section(&is);
+    }
+    let mut fs = we::FunctionSection::new();
+    for _ in &bfuncs { fs.function(0); }
+    m.section(&fs);
+    let mut code = we::CodeSection::new();
+    for f in &bfuncs {
+        let mut fx = we::Function::new(f.groups.iter().map(|(c, t)| (*c as u32, code_enc(*t as u32))));
+        fx.instruction(&we::Instruction::I32Const(f.fp as i32));
+        fx.instruction(&we::Instruction::Drop);
+        fx.instruction(&we::Instruction::End);
+        code.function(&fx);
+    }
+    m.section(&code);
+    if bfuncs.iter().any(|f| f.name.is_some()) {
+        let mut ns = we::NameSection::new();
+        let mut nm = we::NameMap::new();
+        for (i, f) in bfuncs.iter().enumerate() { if let Some(n) = f.name { nm.append(nimpf as u32 + i as u32, &format!("n{n}")); } }
+        ns.functions(&nm);
+        m.section(&ns);
+    }
+    let bytes = m.finish();
+    let base_why = why_invalid(&bytes);
+
+    // ---- history ----
+    let probe_id = nimpf + bfuncs.len() as u64 - 1;
+    let mut known: Vec<u64> = (0..nimpf + bfuncs.len() as u64).collect();
+    let mut locals_known: Vec<u64> = (nimpf..nimpf + bfuncs.len() as u64).collect();
+    let mut dead: Vec<u64> = vec![];
+    let mut built: Vec<(u64, Vec<u32>, Vec<u32>)> = vec![];
+    let mut hist: Vec<BOp> = vec![];
+    let mut rets: Vec<Option<u64>> = vec![];
+    let mut api_panic = false;
+    let mut sites: Vec<u64> = vec![];
+    let mut converted = false;
+    let res = catch_unwind(AssertUnwindSafe(|| {
+        let mut module = Module::parse(&bytes, true).expect("parse");
+        let nops = 1 + r.below(6);
+        let mut forced_build = false;
+        for step in 0..nops {
+            let c = if step + 1 == nops && !forced_build && built.is_empty() { 0 } else { r.below(40) / 2 };
+            let op = match c {
+                0..=10 => {
+                    forced_build = true;
+                    let params: Vec<u32> = (0..r.below(4)).map(|_| gen_sig_ty(r)).collect();
+                    let results: Vec<u32> = (0..match r.below(6) { 0..=2 => 0, 3 | 4 => 1, _ => 2 }).map(|_| gen_sig_ty(r)).collect();
+                    // sometimes reuse a signature that is already in the type section (dedup path)
+                    let (params, results) = if r.chance(1, 4) { r.pick(&types).clone() } else { (params, results) };
+                    let mut locals: Vec<u32> = vec![];
+                    for _ in 0..r.below(5) { let t = if r.chance(1, 2) && !locals.is_empty() { *locals.last().unwrap() } else { gen_sig_ty(r) }; locals.push(t); }
+                    for t in &results { if *t > 3 && !params.contains(t) && !locals.contains(t) { locals.push(*t); } }
+                    let fp = nfp(&mut fpc);
+                    let mut space = params.clone(); space.extend(locals.iter().cloned());
+                    let r2budget = r.below(40) as i32;
+                    let mut g = BGen { r: &mut *r, out: vec![BI::I32Const(fp as i32), BI::Drop], space, labels: vec![], budget: 10 + r2budget, results: results.clone() };
+                    g.stmts(0);
+                    let res2 = g.results.clone();
+                    for t in &res2 { g.expr(*t, 1); }
+                    let bis = g.out;
+                    let name = if r.chance(1, 2) { namec += 1; Some(namec) } else { None };
+                    let body: Vec<Tok> = bis.iter().map(|b| b.tok()).collect();   // finish_module adds the final end
+                    BOp::Build(BFun { fp, params, results, locals, body, name }, bis)
+                }
+                11..=14 => BOp::AddImpFunc(nfp(&mut fpc)),
+                15 | 16 => {
+                    let pool: Vec<u64> = (if r.chance(1, 12) { known.clone() } else { known.iter().cloned().filter(|x| !dead.contains(x)).collect() }).into_iter().filter(|x| *x != probe_id).collect();
+                    if pool.is_empty() { continue; }
+                    BOp::Delete(*r.pick(&pool))
+                }
+                17 if r.chance(1, 2) => {
+                    let pool: Vec<u64> = locals_known.iter().cloned().filter(|x| *x != probe_id && !dead.contains(x)).collect();
+                    if pool.is_empty() { continue; }
+                    BOp::LocalToImport(*r.pick(&pool), nfp(&mut fpc))
+                }
+                _ => continue,
+            };
+            hist.push(op.clone());
+            let rres = catch_unwind(AssertUnwindSafe(|| -> Option<u64> {
+                match &op {
+                    BOp::Build(f, bis) => {
+                        let ps: Vec<DataType> = f.params.iter().map(|t| code_dt(*t)).collect();
+                        let rs: Vec<DataType> = f.results.iter().map(|t| code_dt(*t)).collect();
+                        let mut fb = FunctionBuilder::new(&ps, &rs);
+                        // locals may be declared before or between the instructions: declare a prefix first, the rest after half of the body
+                        let cut = if f.locals.is_empty() { 0 } else { (f.fp as usize) % (f.locals.len() + 1) };
+                        let mut ids: Vec<u32> = vec![];
+                        for t in &f.locals[..cut] { ids.push(*fb.add_local(code_dt(*t))); }
+                        let half = bis.len() / 2;
+                        for b in &bis[..half] { b.apply(&mut fb); }
+                        for t in &f.locals[cut..] { ids.push(*fb.add_local(code_dt(*t))); }
+                        for b in &bis[half..] { b.apply(&mut fb); }
+                        // the ids add_local returned must be params.len() + k (C14); a deviation is reported through the name token
+                        let ok = ids.iter().enumerate().all(|(k, id)| *id as usize == f.params.len() + k);
+                        if let Some(n) = f.name { fb.set_name(format!("n{n}")); }
+                        let id = *fb.finish_module(&mut module) as u64;
+                        Some(if ok { id } else { 888888 })
+                    }
+                    BOp::AddImpFunc(fp) => Some(*module.add_import_func("env".into(), format!("i{fp}"), TypeID(0)).0 as u64),
+                    BOp::Delete(id) => { module.delete_func(FunctionID(*id as u32)); None }
+                    BOp::LocalToImport(id, fp) => { module.convert_local_fn_to_import(FunctionID(*id as u32), "env".into(), format!("i{fp}"), TypeID(0)); None }
+                }
+            }));
+            match rres {
+                Err(_) => { api_panic = true; break; }
+                Ok(ret) => {
+                    rets.push(ret);
+                    match (&op, ret) {
+                        (BOp::Build(f, _), Some(id)) => { if !known.contains(&id) { known.push(id); locals_known.push(id); } built.push((id, f.params.clone(), f.results.clone())); }
+                        (BOp::AddImpFunc(_), Some(id)) => { if !known.contains(&id) { known.push(id); } }
+                        (BOp::Delete(id), _) => { if !dead.contains(id) { dead.push(*id); } }
+                        (BOp::LocalToImport(id, _), _) => { converted = true; locals_known.retain(|x| x != id); dead.retain(|x| x != id); }
+                        _ => {}
+                    }
+                }
+            }
+        }
+        if api_panic { return None; }
+        for id in &known {
+            if *id == probe_id { continue; }
+            let is_built = built.iter().any(|b| b.0 == *id);
+            let take = if dead.contains(id) { r.chance(1, 25) } else if is_built { true } else { r.chance(1, 2) };
+            if take { sites.push(*id); }
+        }
+        let enc = catch_unwind(AssertUnwindSafe(|| {
+            {
+                let mut fm = module.functions.get_fn_modifier(FunctionID(probe_id as u32)).unwrap();
+                fm.before_at(Location::Module { func_idx: FunctionID(0), instr_idx: 0 });
+                for (n, id) in sites.iter().enumerate() {
+                    fm.inject(Operator::I32Const { value: (MARK + n as u64) as i32 });
+                    fm.inject(Operator::Drop);
+                    let (ps, rs) = built.iter().find(|b| b.0 == *id).map(|b| (b.1.clone(), b.2.clone())).unwrap_or((vec![], vec![]));
+                    for t in &ps {
+                        let opx = match t {
+                            0 => Operator::I32Const { value: 0 }, 1 => Operator::I64Const { value: 0 }, 2 => Operator::F32Const { value: wasmparser::Ieee32::from(0.0f32) },
+                            3 => Operator::F64Const { value: wasmparser::Ieee64::from(0.0f64) }, 4 => continue, // no public constructor for a v128 immediate: the call site stays ill-typed
+                            6 | 8 => Operator::RefNull { hty: heap_wp(2) }, _ => Operator::RefNull { hty: heap_wp(0) },
+                        };
+                        fm.inject(opx);
+                    }
+                    fm.inject(Operator::Call { function_index: *id as u32 });
+                    for _ in &rs { fm.inject(Operator::Drop); }
+                }
+            }
+            module.encode()
+        }));
+        enc.ok()
+    }));
+    let enc: Option<Vec<u8>> = match res { Ok(x) => x, Err(_) => { api_panic = true; None } };
+    let dec = enc.as_ref().and_then(|o| decode_c12(o));
+    let out_why = enc.as_ref().and_then(|o| why_invalid(o));
+    let undecodable = enc.is_some() && dec.is_none();
+    let coq_fobs = |f: &FObs| format!("mkFO {} {} {} {} {} {}", f.fp, cl(&f.params, |x| x.to_string()), cl(&f.results, |x| x.to_string()), cl(&f.groups, |(c, t)| format!("({c}, {t})")), coq_toks(&f.body), copt(&f.name, |x| x.to_string()));
+    let enc_s = match &dec {
+        Some((imps, funcs, ss)) => format!("(Some (mkBO {} {} {}))", cl(imps, |(k, fp)| format!("({k}, {fp})")), cl(funcs, |f| coq_fobs(f)), cl(ss, |(n, q)| format!("({n}, {q})"))),
+        None => if undecodable { "(Some (mkBO [] [] [(999999, 999999)]))".to_string() } else { "None".to_string() },
+    };
+    let coq = format!(
+        "mkBC {} {} {} {} {} {} {} {}",
+        cl(&types, |(p, q)| format!("({}, {})", cl(p, |x| x.to_string()), cl(q, |x| x.to_string()))), cl(&imports, |(k, fp)| format!("({k}, {fp})")), cl(&bfuncs, |f| coq_fobs(f)),
+        cl(&hist, |h| h.coq()), cl(&sites, |x| x.to_string()), cl(&rets, |x| match x { Some(v) => format!("Some {v}"), None => "None".into() }), cb(api_panic), enc_s
+    );
+    let desc = format!(
+        "types={:?} imports={:?} funcs={:?} hist=[{}] rets={:?} sites={:?} => api_panic={} out_invalid={:?} {}",
+        types, imports, bfuncs.iter().map(|f| (f.fp, f.groups.clone(), f.name)).collect::<Vec<_>>(), hist.iter().map(|h| h.show()).collect::<Vec<_>>().join(" | "), rets, sites, api_panic, out_why,
+        match &dec { Some((i, f, s)) => format!("imports={:?} funcs=[{}] sites={:?}", i, f.iter().map(|x| format!("(fp={} {:?}->{:?} groups={:?} name={:?} [{}])", x.fp, x.params, x.results, x.groups, x.name, show_toks(&x.body))).collect::<Vec<_>>().join(" "), s), None => if undecodable { "UNDECODABLE".into() } else { "PANIC".to_string() } }
+    );
+    let mut tags = vec![format!("base_why={}", base_why.unwrap_or_default().chars().take(40).collect::<String>()), format!("out_why={}", out_why.clone().unwrap_or_default().chars().take(30).collect::<String>()),
+                        format!("hist_len={}", hist.len()), format!("api_panic={}", api_panic), format!("encoded={}", enc.is_some()), format!("valid={}", enc.is_some() && out_why.is_none()), format!("converted_before={}", converted)];
+    let mut helpers: Vec<String> = vec![];
+    for h in &hist {
+        tags.push(format!("op={}", match h { BOp::Build(..) => "finish_module", BOp::AddImpFunc(_) => "add_import_func", BOp::Delete(_) => "delete_func", BOp::LocalToImport(..) => "convert_local_fn_to_import" }));
+        if let BOp::Build(f, bis) = h {
+            tags.push(format!("body_len_bucket={}", bis.len() / 10 * 10)); tags.push(format!("nlocals={}", f.locals.len())); tags.push(format!("named={}", f.name.is_some()));
+            for b in bis { let n = match b { BI::U32Const(_) => "u32_const".to_string(), BI::U64Const(_) => "u64_const".to_string(), o => o.tok().0 }; if !helpers.contains(&n) { helpers.push(n); } }
+        }
+    }
+    tags.push(format!("distinct_helpers_bucket={}", helpers.len() / 5 * 5));
+    let nontrivial = hist.iter().any(|h| matches!(h, BOp::Build(..)));
+    Case { seed, idx, coq, desc, nontrivial, tags }
+}
+
+fn decode_c12(out: &[u8]) -> Option<(Vec<(u64, u64)>, Vec<FObs>, Vec<(u64, u64)>)> {
+    let mut types: Vec<(Vec<u64>, Vec<u64>)> = vec![];
+    let mut imports: Vec<(u64, u64)> = vec![];
+    let mut ftypes: Vec<u32> = vec![];
+    let mut funcs: Vec<FObs> = vec![];
+    let mut sites: Vec<(u64, u64)> = vec![];
+    let mut names: Vec<(u32, u64)> = vec![];
+    for p in wasmparser::Parser::new(0).parse_all(out) {
+        match p.ok()? {
+            wasmparser::Payload::TypeSection(r) => for g in r {
+                for st in g.ok()?.into_types() {
+                    match &st.composite_type.inner {
+                        wasmparser::CompositeInnerType::Func(f) => types.push((f.params().iter().map(|t| wp_code(*t)).collect(), f.results().iter().map(|t| wp_code(*t)).collect())),
+                        _ => types.push((vec![777], vec![777])),
+                    }
+                }
+            },
+            wasmparser::Payload::ImportSection(r) => for i in r {
+                let i = i.ok()?;
+                let k = match i.ty { wasmparser::TypeRef::Func(_) => 0, wasmparser::TypeRef::Global(_) => 1, wasmparser::TypeRef::Memory(_) => 2, wasmparser::TypeRef::Table(_) => 3, wasmparser::TypeRef::Tag(_) => 4 };
+                imports.push((k, tok(i.name, 'i')));
+            },
+            wasmparser::Payload::FunctionSection(r) => for t in r { ftypes.push(t.ok()?); },
+            wasmparser::Payload::CodeSectionEntry(b) => {
+                let mut groups = vec![];
+                let mut lr = b.get_locals_reader().ok()?;
+                for _ in 0..lr.get_count() { let (c, t) = lr.read().ok()?; groups.push((c as u64, wp_code(t))); }
+                let mut ops = vec![];
+                let mut rd = b.get_operators_reader().ok()?;
+                while !rd.eof() { ops.push(rd.read().ok()?); }
+                let mut fp = 0u64;
+                let mut i = 0;
+                while i < ops.len() {
+                    if let Operator::I32Const { value } = ops[i] {
+                        let v = value as u32 as u64;
+                        if v >= MARK && v < MARK + 50000 {
+                            let mut j = i + 1; let mut q = 444444u64;
+                            while j < ops.len() {
+                                match &ops[j] { Operator::Call { function_index } => { q = *function_index as u64; break; } Operator::I32Const { value } if (*value as u32 as u64) >= MARK => break, _ => {} }
+                                j += 1;
+                            }
+                            sites.push((v - MARK, q));
+                        } else if fp == 0 && value > 0 { fp = v; }
+                    }
+                    i += 1;
+                }
+                let k = funcs.len();
+                let (params, results) = ftypes.get(k).and_then(|t| types.get(*t as usize)).cloned().unwrap_or((vec![888], vec![888]));
+                // the probe's body carries the injected references; its own operators are not part of the observation
+                let body = if fp == PROBE_FP { vec![("i32.const".to_string(), vec![PROBE_FP as i128]), ("drop".to_string(), vec![]), ("end".to_string(), vec![])] } else { ops.iter().map(op_tok).collect() };
+                let fp = if ops.iter().any(|o| matches!(o, Operator::I32Const { value } if *value as u32 as u64 == PROBE_FP)) { PROBE_FP } else { fp };
+                funcs.push(FObs { fp, params, results, groups, body, name: None });
+            }
+            wasmparser::Payload::CustomSection(c) => {
+                if let wasmparser::KnownCustom::Name(r) = c.as_known() {
+                    for sub in r { if let wasmparser::Name::Function(m) = sub.ok()? { for n in m { let n = n.ok()?; names.push((n.index, tok(n.name, 'n'))); } } }
+                }
+            }
+            _ => {}
+        }
+    }
+    let nimp = imports.iter().filter(|x| x.0 == 0).count() as u32;
+    for (k, f) in funcs.iter_mut().enumerate() {
+        let mine: Vec<u64> = names.iter().filter(|(i, _)| *i == nimp + k as u32).map(|(_, n)| *n).collect();
+        f.name = match mine.len() { 0 => None, 1 => Some(mine[0]), _ => Some(999998) };
+    }
+    sites.sort();
+    Some((imports, funcs, sites))
 }
